@@ -7,7 +7,7 @@ from .. import coqenc as q
 
 ID = 'C01'
 RULE = ('test recording = n x c matrix with entry (r, j) = r*c + j in the sample dtype, split into files/parts; '
-        'exhaustive small scope: every composition of n <= N into parts x every integer in [-n, n) x every '
+        'exhaustive small scope (N = 4 quick / 6 thorough; for n = N+1 the same with the column selectors taken in rotation): every composition of n <= N into parts x every integer in [-n, n) x every '
         'unit-step slice with bounds in {None} u [-n, n] selecting >= 1 row x every non-empty increasing index '
         'list (as list and as ndarray) x 5 column selectors (none, 1:3, ::-1, index list, permutation) on 1-4 '
         'channels, integers also as np.int64, on flat files (all layouts) and in-memory arrays (single part); the same abstract cases '
@@ -182,17 +182,19 @@ CORPUS = [
 ]
 
 
-def _exhaustive(nmax):
+def _exhaustive(nfull, nrot):
+    """n <= nfull: every composition x every item x all 5 column selectors; nfull < n <= nrot: every composition x
+    every item, the 5 selectors (and the channel counts 1-4) taken in rotation"""
     cases = []
     k = 0
-    for n in range(1, nmax + 1):
+    for n in range(1, nrot + 1):
         its = items_for(n)
         for sizes in compositions(n):
             for it in its:
                 forms = ('list', 'array') if it[0] in ('list', 'int') else ('list',)
                 for form in forms:
                     k += 1
-                    for si in range(5):
+                    for si in (range(5) if n <= nfull else [k % 5]):
                         c = 1 + (k + si) % 4
                         cols = cols_for(c)[si]
                         cases.append(_get(sizes, c, it, cols, **{'as': form}))
@@ -327,10 +329,10 @@ def generate(tier, rng):
     if tier == 'search':
         return cases + _random(rng, 4000, 600)
     quick = tier == 'quick'
-    base = _exhaustive(5 if quick else 7)
+    base = _exhaustive(4, 5) if quick else _exhaustive(6, 7)
     cases += base
     cases += _attr_cases(6 if quick else 9, rng)
-    cases += _config_sample(base, rng, 1500 if quick else 12000)
+    cases += _config_sample(base, rng, 1200 if quick else 12000)
     cases += _random(rng, 400 if quick else 4000, 2000)
     for c in cases:
         assert valid_case(c), c
@@ -390,7 +392,9 @@ def make_reader(d, sizes, c, cfg):
     if be == 'flat':
         paths, o = [], 0
         for j, s in enumerate(sizes):
-            p = Path(d + 'f%d%s' % (j, cfg.get('ext', '.bin')))
+            # names in DEcreasing lexicographic order: the recording is the files in the order GIVEN, so a reader
+            # that sorts / globs its paths must be seen to differ
+            p = Path(d + 'f%02d%s' % (len(sizes) - 1 - j, cfg.get('ext', '.bin')))
             with open(p, 'wb') as f:
                 f.write(bytes((37 * k + 11) % 251 for k in range(cfg['offset'])))
                 f.write(A[o:o + s].tobytes())
